@@ -187,6 +187,13 @@ fn cases(thorough: bool) -> Vec<Case> {
     // every reply-directed case once more, followed by a late well-formed reply to the same request
     let late: Vec<Case> = out.iter().filter(|c| matches!(c.via, Via::Lock | Via::Get | Via::Bare | Via::Load) && c.class != "splice").map(|c| Case { late_reply: true, desc: format!("{} (+ late valid reply)", c.desc), ..c.clone() }).collect();
     out.extend(late);
+    // a filter expression with deeply nested parentheses in the annotation of a running-config statement
+    // (a 60-byte comment): the candidate reader hands it to the RPSL parser
+    for depth in [4usize, 8, 14, 22] {
+        let expr = format!("{}AS-FOO{}", "(".repeat(depth), ")".repeat(depth));
+        let running = crate::junos::render_running(&[crate::junos::managed_stmt("fltr-foo", &expr)], "1");
+        out.push(Case { via: Via::Candidates, bytes: format!("{running}{MARKER}").into_bytes(), desc: format!("config:running: annotation with {depth} nested parentheses"), class: "nested-expression", late_reply: false });
+    }
     // absurd shapes
     for via in [Via::Hello, Via::Lock, Via::Installed] {
         let deep = format!("{}{}{MARKER}", "<a>".repeat(20_000), "</a>".repeat(20_000));
